@@ -324,7 +324,11 @@ func (f *Frame) zeroInit(st *State, v Value, t types.Type) {
 				vs := arrayValSort(g.sort)
 				if strings.HasPrefix(string(vs), "(Array ") {
 					k, e := splitArraySort(vs)
-					z = Term{fmt.Sprintf("((as const (Array %s %s)) %s)", k, e, zeroOfSort(e)), vs}
+					zs := zeroOfSort(e)
+					if mt, isMap := g.typ.(*types.Map); isMap {
+						zs = env.Zero(mt.Elem()).S
+					}
+					z = Term{fmt.Sprintf("((as const (Array %s %s)) %s)", k, e, zs), vs}
 				} else {
 					z = env.Zero(g.typ)
 				}
